@@ -328,7 +328,7 @@ class CouplingGraph(Collection[tuple[int, int]]):
         return self._edges.__iter__()
 
     def __hash__(self) -> int:
-        return hash((self.num_qudits, tuple(self._edges)))
+        return hash((self.num_qudits, tuple(sorted(self._edges))))
 
     def __len__(self) -> int:
         return self._edges.__len__()
